@@ -346,6 +346,8 @@ def choose_op(rng: Rng, d):
 
 def _choose_op(rng: Rng, d):
     k = d["kind"]
+    if k in ("D", "I", "M") and rng.random() < 0.05:
+        return ["cat", "0"]          # concatenation of a single piece: still a new object
     if k == "E" or rng.random() < 0.06:
         return choose_construct(rng)
     if k in ("D", "I") and rng.random() < 0.07:
@@ -843,13 +845,21 @@ def _safe(f, default):
         return default
 
 
+_NEW_OBJECT_OPS = {"mkD", "mkI", "mkM", "gi", "gs", "ga", "cat"}
+
+
 def run_history(ops, light=0):
     """Replay a history; the first `light` steps are replayed without reading the state back
-    (exhaustive tier: the prefix is judged by its own, shorter, cases)."""
+    (exhaustive tier: the prefix is judged by its own, shorter, cases).
+
+    Every object the history has produced stays *alive* (the last few of them): an operation that returns data
+    (construction, selection, concatenation — also of a single piece) must return an object of its own, so that a later
+    legal mutation through the result (a setter) leaves the operands as they were."""
     cu.quiet()
     obj, shadow = None, None
     steps = []
     after = "E"
+    alive = []          # (object, its state string when it stopped being the current object, the operation that replaced it)
     for k, toks in enumerate(ops):
         before = after
         _LAST_INFO.clear()
@@ -862,6 +872,12 @@ def run_history(ops, light=0):
             info["plain_select"] = _plain_select(before, toks)
         if out != "ok":
             obj2, shadow2 = obj, shadow
+        if out == "ok" and toks[0] in _NEW_OBJECT_OPS and obj is not None and k + 1 > light:
+            if obj2 is obj:
+                info["same_object_returned"] = True
+            else:
+                alive.append((obj, before, " ".join(toks)[:60]))
+                alive = alive[-3:]
         obj, shadow = obj2, shadow2
         if k + 1 < light:
             steps.append(dict(out=out, state="", obs="", bad=[], unchanged=True))
@@ -871,6 +887,15 @@ def run_history(ops, light=0):
         if k + 1 == light:
             steps.append(dict(out=out, state=after, obs="", bad=_safe(lambda: check_obj(obj, shadow, fresh), ["corrupt_object"]), unchanged=True))
             continue
+        changed = []
+        for o, snap, origin in alive:
+            if o is not obj:
+                now = cu.show_state(o)
+                if now != snap:
+                    changed.append(f"the object that `{origin}` was applied to changed from {snap} to {now}")
+        if changed:
+            info["operand_changed"] = changed[:2]
+            alive = [(o, cu.show_state(o), origin) for o, _, origin in alive]
         steps.append(dict(out=out, state=after, obs=_safe(lambda: cu.show_observers(obj), "?corrupt"),
                           bad=_safe(lambda: check_obj(obj, shadow, fresh), ["corrupt_object"]),
                           unchanged=(before == after), info=info))
@@ -1116,6 +1141,18 @@ def _norm_run(case):
     return out
 
 
+def _alias_cases():
+    """In every run: an operation that returns data, then legal setter calls on the RESULT; the operand must stay as it was."""
+    d, i = START["dense"], START["irreg"]
+    for producer in (["cat", "0"], ["gs", "N", "N", "N"], ["ga", "0,1,2"], ["cat", "1", "U", "D"] + a_dense([3], 1) + v_dense([20], [3])):
+        for setter in (["setV"] + v_dense([7], [3]), ["setV"] + v_dense([7, 8, 9, 10, 11], [3]), ["setA"] + a_dense([3], 5), ["setS"] + a_dense([3], 2)):
+            yield dict(kind="seq", start="alias", ops=[d, producer, setter, ["gs", "N", "N", "N"]])
+    for producer in (["cat", "0"], ["gs", "N", "N", "N"], ["ga", "0,1,2"]):
+        for setter in (["setV"] + v_irreg([(0, [3], 40), (1, [2], 41), (2, [4], 42)]), ["setA"] + a_irreg([(0, [3], 5), (1, [2], 5), (2, [4], 5)])):
+            yield dict(kind="seq", start="alias", ops=[i, producer, setter, ["gs", "N", "N", "N"]])
+    yield dict(kind="seq", start="alias", ops=[START["multi"], ["cat", "0"], ["app", "D"] + a_dense([2], 0) + v_dense([1, 2], [2]), ["popd"]])
+
+
 def _stand_label_cases():
     """In every run: standardised points with the right sizes position by position but OTHER labels."""
     st = START["irreg"]                      # labels 0, 1, 2 with 3, 2, 4 points
@@ -1194,6 +1231,7 @@ def gen_cases(rng: Rng, tier):
     cases = [random_history(rng, rng.choice([5, 8, 12, 20, 40])) for _ in range(n)]
     cases += list(_bad_variant_cases())
     cases += list(_stand_label_cases())
+    cases += list(_alias_cases())
     cases += list(_xop_cases(rng, 120 if tier == "quick" else 1500))
     cases += list(_norm_cases(rng, 150 if tier == "quick" else 2000))
     if tier == "quick":
@@ -1363,6 +1401,12 @@ def _judge(ops, steps):
         if info.get("cat_compatible") is False and st["out"] == "ok":
             vs.append(dict(clause="incompatible_accepted", entry=entry, causes=[], step=k,
                            msg=f"step {k} `{desc}`: incompatible pieces (class / dimension / grid / number of components) were concatenated into {st['state']}"))
+        if info.get("same_object_returned") and op == "cat":
+            vs.append(dict(clause="result_aliases_operand", entry=entry, causes=["same_object"], step=k,
+                           msg=f"step {k} `{desc}` returned its operand itself instead of a new object"))
+        for ch in info.get("operand_changed") or []:
+            vs.append(dict(clause="result_aliases_operand", entry=entry, causes=["operand_changed_through_result"], step=k,
+                           msg=f"step {k} `{desc}` (a legal operation on the current object): {ch}"))
         ps = info.get("plain_select")
         if ps:
             ps = tuple(ps)
